@@ -122,6 +122,9 @@ theorem sedov_physical_eos (p : SedovPhysical.P) (hγ : p.gamm1 ≠ 0) (hρ : 0 
   simp only [epv_tree] at *
   split_ifs at * with hc
   · simp only [epv_leaf] at *
+    have hne := hρ.ne'
+    have h1 : p.rho2 ≠ 0 := left_ne_zero_of_mul hne
+    have h2 : p.g ≠ 0 := right_ne_zero_of_mul hne
     refine ⟨by field_simp, fun h0 => Real.sq_sqrt h0⟩
   · simp only [epv_leaf, epv_cond] at *
     exact absurd hρ hc
